@@ -195,7 +195,6 @@ EXT13 = [
     EG("y09", "abc", ["Sx"], [("Sx", [(S(T("a"), L(S(T("b"), L(T("c"), False)), True, ["a"])), "R")])]),                            # star list inside a separated plus list
     EG("y10", "ab", [("Sx", True)], [("Sx", [(S(L(T("a"), True), T("b")), "R")])]),                                                  # no-eoi input
     # two separated lists with the same element and different separators; a list inside the first-declared, self-referencing nonterminal
-    EG("y11", "abcde", ["Sx"], [("Sx", [(S(L(T("a"), True, ["b", "c"]), T("d")), "R1"), (S(T("e"), L(T("a"), True, ["c", "b"])), "R2")])]),
+    EG("y11", "abcd", ["Sx"], [("Sx", [(S(L(T("a"), True, ["b", "c"]), T("d")), "R1"), (S(T("d"), L(T("a"), True, ["c", "b"])), "R2")])], cap=1100),
     EG("y12", "abcd", ["Sx"], [("Sx", [(S(L(T("a"), True), T("b")), "R1"), (S(T("c"), N("Sx"), T("d")), "R2")])]),
-    EG("y13", "abcd", ["Zz", "Aa"], [("Zz", [(S(L(T("a"), False, ["b"]), T("c")), "R1"), (S(T("d"), N("Zz"), N("Aa")), "R2")]), ("Aa", [(S(L(S(T("a"), T("a")), True)), "R3")])]),
 ]
